@@ -1,7 +1,7 @@
 SPECIFICATION Spec
 CONSTANTS MaxOpts = 3
  OptTokens = {"file-ok", "file-missing", "file-noext", "file-badext", "file-garbage", "dir-ok", "dir-long", "dir-empty", "drive-ok", "drive-bad", "drive-neg", "drive-huge", "drive-junk", "drive-vol", "first", "physical", "show-config", "verbose", "ui-ok", "ui-bad", "help", "unknown", "ambiguous", "abbrev"}
- Commands = {"none", "nosuch", "cat", "info-all", "info-noarg", "info-badpat", "free", "type-file", "type-noarg", "type-missing", "sector-map", "dump-sector-ok", "dump-sector-args", "dump-sector-range", "cat-junk", "free-junk", "extract-noarg", "extract-emptydest", "extract-nodir", "help-cmd", "help-nosuch", "cat-nodrive"}
+ Commands = {"none", "nosuch", "cat", "info-all", "info-noarg", "info-badpat", "free", "type-file", "type-noarg", "type-missing", "sector-map", "dump-sector-ok", "dump-sector-args", "dump-sector-range", "dump-sector-overflow", "dump-sector-negoverflow", "cat-overflow", "free-overflow", "cat-junk", "free-junk", "extract-noarg", "extract-emptydest", "extract-nodir", "help-cmd", "help-nosuch", "cat-nodrive"}
 INVARIANT ExitAlphabet
 INVARIANT DiagnosticsNonInterfering
 INVARIANT Emit
